@@ -32,7 +32,13 @@ Clauses(e) ==
           <<"Q-ma-coefficients", ~InDomainArma(e) \/ e.raised \/ e.len_ma = e.Q>>,
           <<"ma-zeros-inside-unit-circle", ~InDomainArma(e) \/ e.raised \/ e.maxzero_ppm < 1000000>>,
           <<"variance-positive-finite", ~InDomainArma(e) \/ e.raised \/ e.rho_ok>>,
-          <<"modified-yule-walker-least-squares", ~InDomainArma(e) \/ e.raised \/ e.P # e.Q \/ Small(e.myw_dev, 100 * Tol)>> }
+          <<"modified-yule-walker-least-squares", ~InDomainArma(e) \/ e.raised \/ e.P # e.Q \/ Small(e.myw_dev, 100 * Tol)>>,
+          \* ... stated as optimality: no coefficient vector leaves a smaller residual (1e-9 units of |y|^2)
+          \* ... and as uniqueness: the coefficients are those of the (full rank) least-squares problem, to the accuracy
+          \* its condition number allows (cond_k = cond/1e3; tolerance cond * 1e-12, at least 1e-7)
+          <<"modified-yule-walker-coefficients", ~InDomainArma(e) \/ e.raised \/ e.P # e.Q \/ ~Has(e, "coef_dev") \/
+                e.cond_k > 1000000 \/ e.coef_dev <= Max(100, e.cond_k)>>,
+          <<"modified-yule-walker-residual-is-minimal", ~InDomainArma(e) \/ e.raised \/ e.P # e.Q \/ ~Has(e, "gap_dev") \/ Small(e.gap_dev, 1000)>> }
     ELSE IF e.ev = "class" THEN
         { <<"no-exception", ~e.raised>>,
           <<"positive-finite", e.raised \/ e.positive>>,
